@@ -34,8 +34,14 @@ def load_corpus() -> List[dict]:
             patch_p = os.path.join(sdir, name, "patch.diff")
             if os.path.exists(meta_p) and os.path.exists(patch_p):
                 meta = json.load(open(meta_p))
-                out.append({"id": "seeded-" + name, "property": meta["breaks_property"], "what": meta.get("needs_to_manifest", ""),
-                            "expect": "fire" if meta.get("expected_detected", True) else "limit", "edits": [], "patch": patch_p})
+                if meta.get("kind") == "benign":
+                    out.append({"id": "seeded-" + name, "property": meta["exercises_property"], "what": "independent benign refactor",
+                                "expect": "silent", "edits": [], "patch": patch_p, "check": meta.get("check_properties")})
+                    if out[-1]["check"] is None:
+                        out[-1]["check"] = ["C%02d" % i for i in range(1, 21)]
+                else:
+                    out.append({"id": "seeded-" + name, "property": meta["breaks_property"], "what": meta.get("needs_to_manifest", ""),
+                                "expect": "fire" if meta.get("expected_detected", True) else "limit", "edits": [], "patch": patch_p})
     ids = [v["id"] for v in out]
     assert len(ids) == len(set(ids)), "duplicate variant ids"
     return out
